@@ -402,6 +402,8 @@ func runC06(c *core.Ctx) {
 	checkReplyChannelPerAttempt(c, "R6.6")
 	c.Rule("R6.7", "the request rebuilt for a retry asks for every key still owed (shared with C13): one reply per requested key", 1)
 	checkRebuildKeepsEveryEntry(c, "R6.7")
+	c.Rule("R6.13", "the pool reader decodes a hit as the backend frames it: Flags from the first extras word, Exptime from the second, the second read exactly for gete/geteq replies", 1)
+	checkReaderDecodesHits(c, "R6.13")
 	c.Rule("R6.12", "a value the pool hands to a caller lives in memory of its own: allocated for that reply, never a view into the connection's read buffer (Peek / ReadSlice) and never a buffer reused for the next reply", 4)
 	checkFreshValueBuffers(c, "R6.12", relBatched)
 	c.Rule("R6.11", "every single-reply method of the batching handler returns the error (and response) the pool's request function gave it", 8)
